@@ -6,6 +6,10 @@
 package main
 
 import (
+	"path/filepath"
+	"os/exec"
+	"regexp"
+	"sync/atomic"
 	"context"
 	"encoding/json"
 	"fmt"
@@ -68,8 +72,10 @@ func (g *gates) pause(thread string) {
 	<-r
 }
 
-var writerActive, readerActive bool // which goroutine the hook call belongs to is decided by these flags (one of each at a time)
-var readerGID, writerGID string
+// which goroutine the hook call belongs to is decided by these (one writer / one reader at a time); atomics: the hooks
+// are called from siglens goroutines while the harness goroutines set them
+var readerActive atomic.Bool
+var writerGIDv atomic.Value // string
 
 func gid() string {
 	b := make([]byte, 64)
@@ -77,15 +83,22 @@ func gid() string {
 	return strings.Fields(string(b))[1]
 }
 
+func loadWriterGID() string {
+	if v, ok := writerGIDv.Load().(string); ok {
+		return v
+	}
+	return ""
+}
+
 func installHooks() {
 	hooks.GlobalHooks.AfterSegmentRotation = func(segmeta interface{}) error {
-		if gid() == writerGID {
+		if gid() == loadWriterGID() {
 			G.pause("w")
 		}
 		return nil
 	}
 	hooks.GlobalHooks.UploadIngestNodeExtrasHook = func() (bool, error) {
-		if gid() == writerGID {
+		if gid() == loadWriterGID() {
 			G.pause("w")
 		}
 		return false, nil
@@ -93,7 +106,7 @@ func installHooks() {
 	// called from resetSegStore (suffix.GetNextSuffix) inside CleanupUnrotatedSegment, i.e. AFTER the segment
 	// has left the unrotated info: a fourth writer step
 	hooks.GlobalHooks.GetNextSuffixHook = func(next uint64, getSegKey func(uint64) string) (uint64, error) {
-		if gid() == writerGID {
+		if gid() == loadWriterGID() {
 			G.pause("w")
 		}
 		return next, nil
@@ -101,17 +114,17 @@ func installHooks() {
 	hooks.GlobalHooks.FilterQsrsHook = func(qsrs interface{}, qi interface{}, isRotated bool) (interface{}, error) {
 		// the query runs its segment enumeration on the goroutine that called ParseAndExecutePipeRequest or a child:
 		// only the marked reader is paused
-		if readerActive {
+		if readerActive.Load() {
 			G.pause("r")
 		}
 		return qsrs, nil
 	}
 }
 
-var qid uint64 = 9000
+var qidCtr atomic.Uint64
 
 func runQuery(index, text string) ([]int, int64, string) {
-	qid++
+	qid := 9000 + qidCtr.Add(1)
 	req := map[string]interface{}{
 		"searchText": text, "indexName": index, "startEpoch": uint64(1), "endEpoch": ^uint64(0),
 		"size": uint64(10000), "queryLanguage": "Splunk QL",
@@ -219,16 +232,16 @@ func runSchedule(index string, sched string, qtext string, nEvents int) result {
 	startThread := func(th string) {
 		if th == "w" {
 			go func() {
-				writerGID = gid()
+				writerGIDv.Store(gid())
 				writer.ForceRotateSegmentsForTest()
-				writerGID = ""
+				writerGIDv.Store("")
 				close(wdone)
 			}()
 		} else {
 			go func() {
-				readerActive = true
+				readerActive.Store(true)
 				res.IDs, res.Count, res.Err = runQuery(index, qtext)
-				readerActive = false
+				readerActive.Store(false)
 				close(rdone)
 			}()
 		}
@@ -370,13 +383,163 @@ func main() {
 	}
 	defs := "Open Scope nat_scope.\nDefinition cases : list (list tid * nat) := " + vhlib.CoqListNL(cases) + ".\n"
 	sum.WriteCaseFile(cfg.Out, "cases_sched", "From SigM Require Import Base Handover HandoverCheck.\n", defs, "check_sched_cases cases", len(cases))
-	hooks.GlobalHooks.AfterSegmentRotation = nil
-	hooks.GlobalHooks.GetNextSuffixHook = nil
-	hooks.GlobalHooks.UploadIngestNodeExtrasHook = nil
-	hooks.GlobalHooks.FilterQsrsHook = nil
+	// the hooks stay installed (siglens background goroutines read them); without a marked writer / reader they do nothing
 	stress(cfg, sum)
+	if os.Getenv("VERIF_RACE_CHILD") == "" {
+		raceStage(cfg, sum)
+	}
 	sum.Write(cfg.Out)
 	os.Exit(0)
+}
+
+// ---------- the same forced interleavings and stress under the Go race detector ----------
+// work/bin/c11race is this program built with -race (lib/build_harness.sh c11 race).  It runs as a child with
+// GORACE log_path; every report is reduced to the pair of innermost siglens functions of its two accesses.
+// This is runtime observation (the clause "no data races" of the property), not a theorem.
+var raceFuncRe = regexp.MustCompile(`^\s+(github\.com/siglens/siglens/[^\s(]+(?:\([^)]*\))?[^\s(]*)\(`)
+
+func raceFrame(block []string) string {
+	for _, l := range block {
+		if m := raceFuncRe.FindStringSubmatch(l); m != nil {
+			f := strings.TrimPrefix(m[1], "github.com/siglens/siglens/")
+			// closures: keep the enclosing function
+			for _, suf := range []string{".func", ".gowrap"} {
+				if i := strings.Index(f, suf); i > 0 {
+					f = f[:i]
+				}
+			}
+			return f
+		}
+	}
+	return ""
+}
+
+func parseRaceLogs(glob string) (pairs map[string]string, harnessOnly int) {
+	pairs = map[string]string{}
+	files, _ := filepath.Glob(glob)
+	for _, fn := range files {
+		b, err := os.ReadFile(fn)
+		if err != nil {
+			continue
+		}
+		for _, rep := range strings.Split(string(b), "WARNING: DATA RACE")[1:] {
+			if i := strings.Index(rep, "=================="); i >= 0 {
+				rep = rep[:i]
+			}
+			// sections are separated by blank lines: access 1, access 2 ("Previous ..."), then goroutine creation stacks
+			secs := strings.Split(rep, "\n\n")
+			var acc []string
+			for _, sec := range secs {
+				t := strings.TrimSpace(sec)
+				if strings.HasPrefix(t, "Read at") || strings.HasPrefix(t, "Write at") || strings.HasPrefix(t, "Previous") || strings.HasPrefix(t, "Atomic") {
+					acc = append(acc, raceFrame(strings.Split(sec, "\n")))
+				}
+			}
+			if len(acc) < 2 || (acc[0] == "" && acc[1] == "") {
+				harnessOnly++
+				continue
+			}
+			a, c := acc[0], acc[1]
+			if a == "" {
+				a = "(harness)"
+			}
+			if c == "" {
+				c = "(harness)"
+			}
+			if a > c {
+				a, c = c, a
+			}
+			key := a + " <> " + c
+			if _, ok := pairs[key]; !ok {
+				lines := strings.Split(strings.TrimSpace(rep), "\n")
+				if len(lines) > 14 {
+					lines = lines[:14]
+				}
+				pairs[key] = strings.Join(lines, "\n")
+			}
+		}
+	}
+	return
+}
+
+func raceStage(cfg vhlib.Config, sum *vhlib.Summary) {
+	self, _ := os.Executable()
+	bin := filepath.Join(filepath.Dir(self), "c11race")
+	if _, err := os.Stat(bin); err != nil {
+		sum.HarnessError("race-detector build of the harness not found: " + bin)
+		return
+	}
+	dir := filepath.Join(cfg.Out, "race")
+	_ = os.RemoveAll(dir)
+	_ = os.MkdirAll(dir, 0o755)
+	runs := 1
+	if cfg.Thorough() {
+		runs = 3
+	}
+	for i := 0; i < runs; i++ {
+		cmd := exec.Command(bin, "--tier", cfg.Tier, "--seed", fmt.Sprint(cfg.Seed+uint64(i)), "--out", filepath.Join(dir, fmt.Sprintf("run%d", i)))
+		cmd.Env = append(os.Environ(), "VERIF_RACE_CHILD=1", "GORACE=halt_on_error=0 history_size=5 log_path="+filepath.Join(dir, fmt.Sprintf("racelog%d", i)))
+		out, err := cmd.CombinedOutput()
+		if err != nil {
+			if ee, ok := err.(*exec.ExitError); !ok || ee.ExitCode() != 66 { // 66 = races were reported
+				sum.HarnessError(fmt.Sprintf("race child: %v %s", err, tail(string(out), 400)))
+				return
+			}
+		}
+	}
+	pairs, _ := parseRaceLogs(filepath.Join(dir, "racelog*"))
+	known, knownFuncs := loadKnownRaces(filepath.Join(filepath.Dir(self), "..", "..", "known", "C11.json"))
+	keys := make([]string, 0, len(pairs))
+	for k := range pairs {
+		keys = append(keys, k)
+	}
+	sort.Strings(keys)
+	sum.Count(fmt.Sprintf("race/distinct_function_pairs=%d", len(keys)))
+	for _, k := range keys {
+		sum.Eval("race/"+k, true)
+		cls := "data_race: " + k
+		if !known[cls] {
+			fs := strings.Split(k, " <> ")
+			if knownFuncs[fs[0]] && knownFuncs[fs[1]] {
+				cls = "data_race_other_pair_of_known_racy_functions"
+			}
+		}
+		sum.Fail(cls, "the race detector reports unsynchronised accesses by "+k+" during concurrent ingest / flush / rotation / search", map[string]interface{}{"functions": k, "report": pairs[k]})
+	}
+}
+
+func tail(s string, n int) string {
+	if len(s) > n {
+		return s[len(s)-n:]
+	}
+	return s
+}
+
+// known race classes of known/C11.json (read-only; the verdict is the driver's, this only picks the class name)
+func loadKnownRaces(path string) (map[string]bool, map[string]bool) {
+	known, funcs := map[string]bool{}, map[string]bool{}
+	b, err := os.ReadFile(path)
+	if err != nil {
+		return known, funcs
+	}
+	var j struct {
+		Findings []struct {
+			Status string `json:"status"`
+			Class  string `json:"class"`
+		} `json:"findings"`
+	}
+	if json.Unmarshal(b, &j) != nil {
+		return known, funcs
+	}
+	for _, f := range j.Findings {
+		if f.Status == "known" && strings.HasPrefix(f.Class, "data_race: ") {
+			known[f.Class] = true
+			for _, fn := range strings.Split(strings.TrimPrefix(f.Class, "data_race: "), " <> ") {
+				funcs[fn] = true
+			}
+		}
+	}
+	return known, funcs
 }
 
 
